@@ -79,7 +79,7 @@ ASSUMPTIONS = [
     "the band is skipped here (counted under 'references disagree')",
 ]
 
-NCASES = {"quick": 840, "thorough": 24000}
+NCASES = {"quick": 2400, "thorough": 24000}
 KINDS = ["nl", "nb", "nl", "nb", "nl", "nlt"]
 CELLS = common.CELL_KINDS + ["none", "nonperiodic"]
 PLACES = ["brick", "brick", "cell", "cluster", "voxel", "voxel", "faces", "shift1", "shift5"]
